@@ -40,7 +40,7 @@ def showOpt : Option Nat → String
   | some n => toString n
 
 def showLog (l : List Entry) : String :=
-  if l.isEmpty then "-" else ",".intercalate (l.map (fun e => s!"{e.cycle}.{e.prefix}.{e.bucket}"))
+  if l.isEmpty then "-" else ",".intercalate (l.map (fun e => s!"{e.cycle}.{e.pfx}.{e.bucket}"))
 
 def runShow (np : Nat) : St → List Event → List String → List String
   | _, [], acc => acc.reverse
